@@ -48,7 +48,7 @@ CLAIMED = {
         design="4/C09, Appendix C, O"),
     "C10": dict(
         technique="Coq proof by composition (C06 segmentation + C07 round trip + response writer model) for the server; invariant over all histories for the client callback queue; end-to-end oracle on real servers/clients",
-        text="coq/server/C10.v: (1) for every pipelined sequence of well-formed body-less requests, every segmentation and every handler, the bytes a connection writes are the concatenation in request order "
+        text="coq/server/C10.v: (1) for every pipelined sequence of well-formed requests - body-less, Content-Length framed with arbitrary body bytes, or chunked, mixed in one stream (c10_one_answer_per_request_in_order_bodies_partial) -, every segmentation and every handler, the bytes a connection writes are the concatenation in request order "
              "of each request's own answer (one answer per request, in order); (2) for the client connection's pending-handler queue, in every history of Do / response / close / failed send / recycle: "
              "callbacks invoked so far ++ pending = submitted requests in submission order (never twice, FIFO), and after a close nothing is pending (exactly once). "
              "Decided on every run by the end-to-end oracle: real nbhttp server in IOMod x {plain, TLS} x epoll-mode cells (one engine serves both listeners; IOModMixed with MaxBlockingOnline 6), up to 24 plain + 24 TLS (crypto/tls 1.2/1.3, optionally chopped records) concurrent raw pipelining connections + net/http clients (plain and https) + nbhttp.Client (plain and https), "
